@@ -99,7 +99,7 @@ func genSlice(r *Rng, n, k int, malformed bool) View {
 	if r.Intn(4) == 0 {
 		kind = "C"
 	}
-	return View{kind, [4]int{r0, r1, c0, c1}}
+	return View{K: kind, A: [4]int{r0, r1, c0, c1}}
 }
 
 func smallVals(r *Rng, n, lo, hi int) []int64 {
@@ -242,6 +242,14 @@ func genCase(r *Rng, seq int) Case {
 		}
 		c.Views = append(c.Views, v)
 		n, k = v.A[1]-v.A[0], v.A[3]-v.A[2]
+	}
+	if !c.Sparse {
+		// discarded constructor calls on the object a step starts from (dense: T()/Slice are pure header functions)
+		for i := range c.Views {
+			if r.Intn(3) == 0 {
+				c.Views[i].P = 1 + r.Intn(7)
+			}
+		}
 	}
 	ops := denseOps
 	if c.Sparse {
